@@ -3,13 +3,36 @@
 import json, os
 HERE = os.path.dirname(os.path.abspath(__file__))
 
+PPNOTE = ('MIR of nightly rustc = code built by stable (dev-profile arithmetic); std models (String, Vec, HashMap with symbolic presence, BTreeMap = std B-tree algorithm '
+          'driven by the real Range::cmp, Option/Result, iterators, Path/File as symbolic file system) as listed in evidence.models_and_stubs; the real nom parser is run natively '
+          'for the tree of each concrete text (concolic split), tree iterators/conversions run from MIR; reference evaluator lib/ppref.py restates IEEE 1800-2017 22.4-22.6.')
+PPTECH = 'MIR symbolic execution (own interpreter, python+z3) of the real preprocessor; z3 decides agreement with a reference evaluator on every intersection of path conditions; native replay of every counterexample'
+
 CHECKS = {
+ 'C03': dict(
+    category='model_checking',
+    text='(a) map core: the real PreprocessedText::{new,push,merge,origin} and Range::{new,offset,eq,cmp} MIR executed on symbolic push sequences (lengths 0..3, source offsets, with/without origin, one nested merge) and a symbolic probe position, BTreeMap modelled by std\'s B-tree algorithm calling the real comparator; every model that violates the oracle (segment containing pos, src+(pos-base)) or reaches a panic is replayed on the real BTreeMap. (b) emission sites: preprocess_str MIR on texts exercising every push site (kept directives, conditionals with trailing text, macro usages with empty/non-empty expansion, includes, non-ASCII) with define table and strip_comments symbolic; origins of every output byte compared with the provenance computed by the reference. Bounded: <=7 segments with empty ones, <=30 non-empty, one merge level, the listed texts.',
+    note=PPNOTE, technique=PPTECH, design='4/C03'),
  'C04': dict(
     category='model_checking',
-    text='Bounded symbolic execution of the real preprocess_str (rustc MIR) on a family of conditional programs with the initial define table and strip_comments as z3 variables; a reference evaluator of IEEE 22.6 runs under the same variables and z3 decides agreement on every intersection of a real path with a reference case; counterexamples are replayed natively. All define tables over the names used are covered for every program of the family; programs outside the family are not.',
-    note='MIR of nightly rustc = code built by stable; std models (String, Vec, HashMap, Option/Result, iterators) as listed in evidence.models_and_stubs; the real nom parser is run natively for the tree of each concrete text; reference evaluator lib/ppref.py.',
-    technique='MIR symbolic execution (own interpreter) + z3 path-partition cross-check against a reference evaluator; native replay',
-    design='4/C04'),
+    text='Bounded symbolic execution of the real preprocess_str (rustc MIR) on a family of conditional programs (chains <=3, nesting <=2, define/undef/undefineall/usages inside branches and through macro bodies) with the initial define table and strip_comments as z3 variables; a reference evaluator of IEEE 22.6 runs under the same variables and z3 decides agreement on every intersection of a real path with a reference case; counterexamples are replayed natively. All define tables over the names used are covered for every program of the family; programs outside the family are not.',
+    note=PPNOTE, technique=PPTECH, design='4/C04'),
+ 'C09': dict(
+    category='model_checking',
+    text='resolve_depth and include_depth enter the real preprocess_str MIR as unbounded z3 integers; for every recursion edge of the code (usage->expansion, include->file, macro-named include, include inside an expansion) the outcome (Ok / ExceedRecursiveLimit under exactly one Include wrapper per level) must agree with the reference for every depth value; direct/mutual/3-cycles of macros, self/mutual includes, macro->include cycle and 64/65-deep chains are executed from depth 0; stack exhaustion of the interpreter is replayed natively as a process abort.',
+    note=PPNOTE, technique=PPTECH, design='4/C09'),
+ 'C10': dict(
+    category='model_checking',
+    text='The real preprocess_str/preprocess_inner MIR on include programs (search order cwd -> include paths in both orders, both quoting styles, macro-named file, absolute path, nesting to depth 3, same file twice, defines/undefs flowing in and out, same-line rule, ignore_include, missing and non-UTF-8 files) with the existence of every candidate path, the define table and ignore_include symbolic; compared with the reference: surviving tokens, returned table, Error variant/payload/Include nesting, list of files opened, origins.',
+    note=PPNOTE + ' File system = symbolic existence per path + fixed content (models_pp.SymFS).', technique=PPTECH, design='4/C10'),
+ 'C11': dict(
+    category='model_checking',
+    text='Returned define table: programs with define/undef/undefineall/redefinition (plain, in dead branches, through macro bodies) run on the real MIR with the initial table symbolic; presence (as z3 terms), formals, defaults, body text and body range of every entry compared with the reference table on every feasible intersection. Threading: for pairs (f1,f2) one symbolic execution runs the real code on f1, on f2 with the table returned for f1, and on f1++f2, and the solver looks for an initial table under which texts or final tables differ.',
+    note=PPNOTE, technique=PPTECH, design='4/C11'),
+ 'C18': dict(
+    category='model_checking',
+    text='strip_comments symbolic on programs with comments as sole separators, next to directives/usages, in define bodies (+ emission-site and conditional families): (a) reference cross-check of tokens/table under the flag, (b) relational check between every strip=true and strip=false real path with compatible conditions (non-comment tokens, error, table), (c) no comment token in strip=true output outside kept `define lines.',
+    note=PPNOTE, technique=PPTECH + '; relational (2-run) query over path conditions', design='4/C18'),
 }
 
 NA = {
